@@ -884,7 +884,7 @@ fn pprime(bits: usize) -> Vec<Limbs> {
 }
 
 fn c10(r: &Runner) {
-    r.set_rule("S(B)^3 = all triples of all values for B <= Smax (moduli include 0, 1, 2, 2^k, 2^B-1 automatically); at wide widths all triples over (limb alphabet product + P'(B)); inv_mod / reduce_mod on all pairs. non-trivial = an operand is >= the modulus or the intermediate sum/product overflows BITS, or the modulus is 0");
+    r.set_rule("S(B)^3 = all triples of all values for B <= Smax (moduli include 0, 1, 2, 2^k, 2^B-1 automatically); at wide widths all triples over (limb alphabet product + P'(B)); inv_mod / reduce_mod on all pairs, and on every node of the quotient-sequence tree (inverse Euclid steps from seeds g in {1, 2, 15015, 2^64+1, 3*2^64+1, 2^128+1} with quotients {1,2,3,2^32-1,2^32,2^63,2^64-1}, every sequence with at most D deviations from the all-ones path). non-trivial = an operand is >= the modulus or the intermediate sum/product overflows BITS, or the modulus is 0");
     let smax = small_max(r, 6, 7);
     for bits in 0..=smax {
         let u = small_all(bits);
@@ -912,6 +912,59 @@ fn c10(r: &Runner) {
         let (u2, d2) = bin_universe(r, bits);
         pairs(r, &format!("({d2})^2"), bits, &u2, &u2, &[Op::reduce_mod, Op::inv_mod]);
         related_pairs(r, bits, &[Op::reduce_mod, Op::inv_mod]);
+    }
+    // quotient-sequence universe (as C12): the tree of inverse Euclid steps (a, b) -> (q*a + b, a) from seeds (g, 0),
+    // deviation-bounded (q = 1 is free, any other quotient costs 1); every node is a (value, modulus) pair in both roles
+    if !SWEEP {
+        const QS: [u64; 7] = [1, 2, 3, (1 << 32) - 1, 1 << 32, 1 << 63, u64::MAX];
+        fn dfs(l: &mut Local, bits: usize, lim: &BigUint, a: &BigUint, b: &BigUint, dev: u32, maxdev: u32) {
+            for &q in &QS {
+                let cost = if q == 1 { 0 } else { 1 };
+                if dev + cost > maxdev || (b.is_zero() && q == 1) {
+                    continue;
+                }
+                let na = BigUint::from(q) * a + b;
+                if &na >= lim {
+                    continue;
+                }
+                l.states(1);
+                let (x, y) = (u(&na, bits), u(a, bits));
+                exec(l, bits, Op::inv_mod, &[y.clone(), x.clone()]);
+                exec(l, bits, Op::inv_mod, &[x.clone(), y.clone()]);
+                exec(l, bits, Op::reduce_mod, &[x, y]);
+                dfs(l, bits, lim, &na, a, dev + cost, maxdev);
+            }
+        }
+        let mut seeds: Vec<BigUint> = [1u64, 2, 3 * 5 * 7 * 11 * 13].iter().map(|g| BigUint::from(*g)).collect();
+        // common divisors that are 1 modulo 2^64
+        seeds.extend([pow2(64) + 1u32, pow2(64) * 3u32 + 1u32, pow2(128) + 1u32]);
+        let qw: Vec<(usize, u32)> = if r.is_thorough() { vec![(64, 3), (65, 3), (127, 2), (128, 2), (129, 2), (192, 2), (193, 2), (256, 2), (257, 2), (320, 1), (512, 1)] } else { vec![(64, 2), (65, 2), (128, 2), (129, 1), (192, 1), (256, 1), (257, 1)] };
+        for (bits, maxdev) in qw {
+            let lim = pow2(bits);
+            // roots: the children of every seed under every first quotient (tasks of the parallel search)
+            let mut roots: Vec<(BigUint, BigUint, u32)> = vec![];
+            for g in &seeds {
+                for &q in &QS {
+                    let na = BigUint::from(q) * g;
+                    if q != 1 && na < lim && maxdev >= 1 {
+                        roots.push((na, g.clone(), 1));
+                    }
+                }
+                if g < &lim {
+                    roots.push((g.clone(), BigUint::zero(), 0));
+                }
+            }
+            r.universe(&format!("quotient sequences from {} seeds, <= {maxdev} deviations: inv_mod (both roles), reduce_mod at every node", seeds.len()), bits, roots.len(), |i, l| {
+                let (a, b, dev) = &roots[i];
+                if !b.is_zero() {
+                    l.states(1);
+                    let (x, y) = (u(a, bits), u(b, bits));
+                    exec(l, bits, Op::inv_mod, &[y.clone(), x.clone()]);
+                    exec(l, bits, Op::inv_mod, &[x, y]);
+                }
+                dfs(l, bits, &lim, a, b, *dev, maxdev);
+            });
+        }
     }
     for &bits in big_widths() {
         let (mut u, ud) = pick_capped(bits, 24, &[]);
